@@ -8,6 +8,11 @@ use vrp_verif_harness::evalgen::*;
 use vrp_verif_harness::pragen::quiet_env;
 use vrp_verif_harness::*;
 
+// tours with reload markers (capacity per route interval): generator and executor of the case kind "iv"
+#[allow(dead_code)]
+#[path = "c06iv.rs"]
+mod c06iv;
+
 fn gen_cases(rng: &mut Rng, tier: Tier) -> Vec<Value> {
     let scale = if tier == Tier::Thorough { 30 } else { 1 };
     let mut cases = vec![];
@@ -17,6 +22,8 @@ fn gen_cases(rng: &mut Rng, tier: Tier) -> Vec<Value> {
     for _ in 0..(800 * scale) {
         cases.push(gen_case(rng, "multi"));
     }
+    // last, so that the streams above stay what they were: tours with reload markers
+    cases.extend(c06iv::gen_cases(rng, tier));
     cases
 }
 
@@ -47,6 +54,9 @@ pub fn result_json(res: &InsertionResult) -> Value {
 }
 
 fn exec(case: &Value) -> Value {
+    if case["k"] == "iv" {
+        return c06iv::exec(case);
+    }
     let ec = build_case(case, quiet_env());
     let route_ctx = match ec.ctx.solution.routes.first() {
         Some(r) => r.deep_copy(),
